@@ -1183,6 +1183,15 @@ func variant(r *prng.Rng, md protoreflect.MessageDescriptor, b []byte, depth int
 						}
 					}
 				}
+				if vm := fd.MapValue().Message(); vm != nil && withUnknown && r.Chance(1, 2) {
+					// unknown fields INSIDE the message that is the entry's value (and inside its children)
+					for i, e := range ers {
+						if e.num == 2 && e.typ == protowire.BytesType {
+							ers[i] = lenRec(2, sprinkleUnknown(r, vm, payloadOf(e), depth+1))
+							applied = append(applied, "map-value:unknown-field")
+						}
+					}
+				}
 				out = append(out, lenRec(x.num, emitRecs(ers)))
 				continue
 			}
@@ -1233,7 +1242,13 @@ func variant(r *prng.Rng, md protoreflect.MessageDescriptor, b []byte, depth int
 		case fd.Kind() == protoreflect.MessageKind && fd.IsList() && x.typ == protowire.BytesType:
 			inner := payloadOf(x)
 			if depth < 2 {
-				inner, _ = variant(r, fd.Message(), inner, depth+1, withUnknown)
+				var ap []string
+				inner, ap = variant(r, fd.Message(), inner, depth+1, withUnknown)
+				for _, a := range ap {
+					if a == "unknown-field" || strings.HasSuffix(a, ":unknown-field") {
+						applied = append(applied, "element:"+a)
+					}
+				}
 			}
 			out = append(out, lenRec(x.num, inner))
 		case !fd.IsList() && r.Chance(1, 5) && (fd.ContainingOneof() == nil || fd.ContainingOneof().IsSynthetic()):
@@ -1304,13 +1319,146 @@ func variant(r *prng.Rng, md protoreflect.MessageDescriptor, b []byte, depth int
 	return emitRecs(out), applied
 }
 
+// sprinkleUnknown inserts one or two fields the schema of md does not define at random positions of a valid
+// encoding b of a message of type md, and (half of the time each, three levels down at most) does the same inside
+// the message-typed fields of b; nothing else is rewritten.
+func sprinkleUnknown(r *prng.Rng, md protoreflect.MessageDescriptor, b []byte, depth int) []byte {
+	rs, ok := parseRecs(b)
+	if !ok {
+		return b
+	}
+	if depth < 3 {
+		for i, x := range rs {
+			fd := md.Fields().ByNumber(x.num)
+			if fd == nil || fd.IsMap() || fd.Message() == nil || x.typ != protowire.BytesType || !r.Chance(1, 2) {
+				continue
+			}
+			rs[i] = lenRec(x.num, sprinkleUnknown(r, fd.Message(), payloadOf(x), depth+1))
+		}
+	}
+	for n := 1 + r.Intn(2); n > 0; n-- {
+		pos := r.Intn(len(rs) + 1)
+		rs = append(rs[:pos:pos], append([]rec{randUnknown(r, md)}, rs[pos:]...)...)
+	}
+	return emitRecs(rs)
+}
+
+// unknownInside yields valid encodings of a message of type md that carry fields the schema does not define INSIDE
+// a child message, for every nesting position: every message-typed field of md in turn (singular, oneof member,
+// list element, map value) — whether the child's type has generated code of this target or is served by the
+// target's runtime (well-known types, types of files generated without fast-marshal code) — holds
+//   - a child with its declared scalar fields set and unknown fields before, between and after them (wire types
+//     in rotation),
+//   - a child that holds nothing but one unknown field (on top of its required fields, if any),
+//   - (three levels at most) a child that in turn carries unknown fields inside each of ITS message-typed fields;
+// the other declared scalar fields of md are set, so that the child has neighbours on both sides.
+func (rn *runner) unknownInside(t *Target, md protoreflect.MessageDescriptor, depth int, yield func(enc []byte, path, how string)) {
+	r := rn.r
+	k := r.Intn(4)
+	unk := func(cm protoreflect.MessageDescriptor) rec {
+		k++
+		return unknownValue(r, unknownNumber(r, cm, true), k)
+	}
+	for i := 0; i < md.Fields().Len(); i++ {
+		fd := md.Fields().Get(i)
+		cm := fd.Message()
+		if fd.IsMap() {
+			cm = fd.MapValue().Message()
+		}
+		if cm == nil {
+			continue
+		}
+		// the enclosing message: declared scalar fields set, minus fd itself and the other members of fd's oneof
+		skip := map[protowire.Number]bool{protowire.Number(fd.Number()): true}
+		if oo := fd.ContainingOneof(); oo != nil && !oo.IsSynthetic() {
+			for j := 0; j < oo.Fields().Len(); j++ {
+				skip[protowire.Number(oo.Fields().Get(j).Number())] = true
+			}
+		}
+		var before, after []rec
+		prs, _ := parseRecs(refBytes(filledMessage(md, 1)))
+		for _, x := range prs {
+			switch {
+			case skip[x.num]:
+			case x.num < protowire.Number(fd.Number()):
+				before = append(before, x)
+			default:
+				after = append(after, x)
+			}
+		}
+		fill := refBytes(filledMessage(cm, 1))
+		minimal := refBytes(minimalMessage(cm))
+		var entry []rec // map: the records of one entry, the value's payload to be replaced
+		if fd.IsMap() {
+			m := dynamicpb.NewMessage(md)
+			m.Mutable(fd).Map().Set(boundary(fd.MapKey(), 1).MapKey(), protoreflect.ValueOfMessage(minimalMessage(cm)))
+			if xs, ok := parseRecs(refBytes(m)); ok && len(xs) == 1 {
+				entry, _ = parseRecs(payloadOf(xs[0]))
+			}
+			if len(entry) == 0 {
+				continue
+			}
+		}
+		emit := func(payload []byte, path, how string) {
+			num := protowire.Number(fd.Number())
+			out := append([]rec{}, before...)
+			switch {
+			case fd.IsMap():
+				var ers []rec
+				replaced := false
+				for _, e := range entry {
+					if e.num == 2 {
+						e = lenRec(2, payload)
+						replaced = true
+					}
+					ers = append(ers, e)
+				}
+				if !replaced {
+					ers = append(ers, lenRec(2, payload))
+				}
+				out = append(out, lenRec(num, emitRecs(ers)))
+				path = fmt.Sprintf("/%d{}%s", num, path)
+			case fd.IsList():
+				// three elements, the middle one carrying the unknown fields
+				out = append(out, lenRec(num, fill), lenRec(num, payload), lenRec(num, minimal))
+				path = fmt.Sprintf("/%d[1]%s", num, path)
+			default:
+				out = append(out, lenRec(num, payload))
+				path = fmt.Sprintf("/%d%s", num, path)
+			}
+			yield(emitRecs(append(out, after...)), path, how)
+		}
+		frs, _ := parseRecs(fill)
+		{
+			half := len(frs) / 2
+			var p []rec
+			p = append(p, unk(cm))
+			p = append(p, frs[:half]...)
+			if len(frs) > 1 {
+				p = append(p, unk(cm))
+			}
+			p = append(p, frs[half:]...)
+			p = append(p, unk(cm))
+			emit(emitRecs(p), "", "declared-fields-set-and-unknown-fields-before-between-after")
+		}
+		{
+			mrs, _ := parseRecs(minimal)
+			emit(emitRecs(append(mrs, unk(cm))), "", "nothing-but-one-unknown-field")
+		}
+		if depth < 2 {
+			rn.unknownInside(t, cm, depth+1, emit)
+		}
+	}
+}
+
 // directedUnknown yields valid encodings of message type name that put fields the schema does not define where
 // their handling is most likely to go wrong:
 //   - nothing but unknown fields (on top of the required fields, if any): one field of each wire type, and several;
 //   - every declared field and every declared extension N in turn, set, with unknown fields numbered N+1 and N-1
 //     (where the schema leaves them undefined) immediately BEFORE and immediately AFTER it, and between two
 //     occurrences of N;
-//   - the undefined numbers on both sides of both ends of every extension range, before and after a set extension.
+//   - the undefined numbers on both sides of both ends of every extension range, before and after a set extension;
+//   - unknown fields INSIDE the child at every nesting position (unknownInside).
 func (rn *runner) directedUnknown(t *Target, name string, yield func(enc []byte, applied []string)) {
 	md := t.desc(name)
 	r := rn.r
@@ -1522,6 +1670,10 @@ func (rn *runner) directedUnknown(t *Target, name string, yield func(enc []byte,
 		}
 		yield(emitRecs(out), []string{fmt.Sprintf("reserved range %d to %d", rg[0], rg[1]-1), "unknown-fields-with-reserved-numbers-before-and-after"})
 	}
+	// every nesting position: unknown fields inside the children (generated and runtime-served), three levels down
+	rn.unknownInside(t, md, 0, func(enc []byte, path, how string) {
+		yield(enc, []string{"unknown-fields-inside-the-nested-message-at " + path, how})
+	})
 }
 
 // otherValue: a record of the same number and wire type as x carrying a different value.
@@ -1790,23 +1942,23 @@ func dedup(xs []string) []string {
 // of a DECLARED extension) must leave them alone; and a second Unmarshal into the same message leaves exactly the
 // second input's unknown fields.
 // unknownTree renders the unknown fields a message holds at every level: one "path=hex" item per message value
-// (top level, singular / repeated / map-valued message fields, recursively) that holds any.
+// (top level, singular / repeated / map-valued message fields, recursively) that holds any — message values of
+// generated types and of runtime-served types alike (the latter marked "*").
 func (t *Target) unknownTree(m protoreflect.Message) string {
-	// only message types this target has generated code for: a foreign message (well-known type, a type of an
-	// imported file that was not generated) is decoded and written by its runtime, which may keep and order its
-	// unknown fields its own way
-	generated := func(md protoreflect.MessageDescriptor) bool {
-		pkg := string(t.file.Package()) + "."
-		if !strings.HasPrefix(string(md.FullName()), pkg) {
-			return false
-		}
-		_, ok := t.Messages[strings.TrimPrefix(string(md.FullName()), pkg)]
-		return ok
-	}
 	var items []string
 	var walk func(m protoreflect.Message, path string, depth int)
 	walk = func(m protoreflect.Message, path string, depth int) {
 		if u := m.GetUnknown(); len(u) > 0 {
+			if !t.generatedType(m.Descriptor()) {
+				// a message value this target has no generated code for (a well-known type, a type of an imported file
+				// that was generated without fast-marshal code): its runtime decodes and writes it on behalf of the
+				// enclosing generated code, and must be handed — and hand back — every field it does not know. The
+				// runtimes keep them byte for byte; Gogo alone re-orders ACROSS field numbers (see canonUnknown)
+				path += "*"
+				if t.Runtime == "gogo" {
+					u = canonUnknown(u)
+				}
+			}
 			items = append(items, path+"="+hx(u))
 		}
 		if depth > 8 {
@@ -1819,13 +1971,6 @@ func (t *Target) unknownTree(m protoreflect.Message) string {
 		var subs []sub
 		m.Range(func(fd protoreflect.FieldDescriptor, v protoreflect.Value) bool {
 			if fd.Message() == nil && !(fd.IsMap() && fd.MapValue().Message() != nil) {
-				return true
-			}
-			if fd.IsMap() {
-				if vm := fd.MapValue().Message(); vm == nil || !generated(vm) {
-					return true
-				}
-			} else if !generated(fd.Message()) {
 				return true
 			}
 			p := fmt.Sprintf("%s/%d", path, fd.Number())
@@ -1854,6 +1999,30 @@ func (t *Target) unknownTree(m protoreflect.Message) string {
 	}
 	walk(m, "", 0)
 	return strings.Join(items, " ")
+}
+
+// generatedType: this target has generated (fast-marshal) code for message type md. Every other message type
+// reachable from the target's messages is served by the target's Protobuf runtime.
+func (t *Target) generatedType(md protoreflect.MessageDescriptor) bool {
+	pkg := string(t.file.Package()) + "."
+	if !strings.HasPrefix(string(md.FullName()), pkg) {
+		return false
+	}
+	_, ok := t.Messages[strings.TrimPrefix(string(md.FullName()), pkg)]
+	return ok
+}
+
+// canonUnknown: the records of u stably sorted by field number. Gogo's table-driven decoder keeps an unknown field
+// whose number lies inside an extension range with the extensions (written first, by number) and the others in
+// XXX_unrecognized (written last): the records of one number keep their order and their bytes, records of different
+// numbers may change places.
+func canonUnknown(u []byte) []byte {
+	rs, ok := parseRecs(u)
+	if !ok {
+		return u
+	}
+	sort.SliceStable(rs, func(a, b int) bool { return rs[a].num < rs[b].num })
+	return emitRecs(rs)
 }
 
 func (rn *runner) unknownRoundTrip(t *Target, name string, m interface{}, want *dynamicpb.Message, deep bool, desc map[string]interface{}, input []byte) {
